@@ -123,11 +123,13 @@ impl<'a> Tr<'a> {
         let rt = self.ret_ty.clone();
         join(&v.ty, &rt).map_err(|m| format!("return value: {}", m))?;
         let mut comps = vec![];
+        let _ = env;
         if self.mut_self {
-            comps.push(env.get("self").map(|x| x.coq.clone()).unwrap_or_else(|| "self'".into()));
+            comps.push(self.self_coq.clone());
         }
-        for p in self.mut_params.clone() {
-            comps.push(env.get(&p).map(|x| x.coq.clone()).ok_or_else(|| format!("`&mut` parameter `{}` not in scope at return", p))?);
+        // the parameters' own Coq names: assignments rebind exactly these names, a shadowing local gets another one
+        for c in self.mut_param_coq.clone() {
+            comps.push(c);
         }
         if rt != Ty::Unit {
             comps.push(v.s);
@@ -146,8 +148,8 @@ impl<'a> Tr<'a> {
     }
 
     pub fn read_alias(&self, a: &Alias, env: &Env, at: &Expr) -> R<Val> {
-        let rv = env.get(&a.root).ok_or_else(|| unsupported(at, "alias root out of scope"))?;
-        let base = Val { s: rv.coq.clone(), ty: rv.ty.clone() };
+        let _ = env;
+        let base = Val { s: a.root_coq.clone(), ty: a.root_ty.clone() };
         if a.arms.len() == 1 && a.arms[0].0 == "_" {
             return self.read_path(&base, &a.arms[0].1, at);
         }
@@ -178,8 +180,11 @@ impl<'a> Tr<'a> {
     /// `let root := <root with path := new> in rest` (through the alias if root is one)
     pub fn write_place(&mut self, root: &str, path: &[Member], env: &Env, new: &str, rest: &str, at: &Expr) -> R<String> {
         let v = env.get(root).cloned().ok_or_else(|| unsupported(at, &format!("assignment to `{}` which is not a local variable", root)))?;
+        if !v.mutable && v.alias.is_none() {
+            return Err(unsupported(at, &format!("write to `{}`, which is not declared `mut`: in Rust this is a write through a reference binding (destructured `&mut`, default binding mode), which is not modelled", root)));
+        }
         if let Some(a) = &v.alias {
-            let rv = env.get(&a.root).cloned().ok_or_else(|| unsupported(at, "alias root out of scope"))?;
+            let rv = Var { coq: a.root_coq.clone(), ty: a.root_ty.clone(), alias: None, mutable: true };
             let base = Val { s: rv.coq.clone(), ty: rv.ty.clone() };
             let upd = if a.arms.len() == 1 && a.arms[0].0 == "_" {
                 let mut full = a.arms[0].1.clone();
@@ -204,24 +209,24 @@ impl<'a> Tr<'a> {
 
     /// the variables really mutated by assignments to `names` (aliases resolved to their roots), innermost bindings, in env order
     pub fn mutated_vars(&self, names: &std::collections::BTreeSet<String>, env: &Env) -> Vec<(String, Var)> {
+        // Coq names of the variables written (an alias writes its root)
         let mut real: std::collections::BTreeSet<String> = Default::default();
         for n in names {
-            match env.get(n) {
-                Some(v) => match &v.alias {
+            if let Some(v) = env.get(n) {
+                match &v.alias {
                     Some(a) => {
-                        real.insert(a.root.clone());
+                        real.insert(a.root_coq.clone());
                     }
                     None => {
-                        real.insert(n.clone());
+                        real.insert(v.coq.clone());
                     }
-                },
-                None => {}
+                }
             }
         }
         let mut out: Vec<(String, Var)> = vec![];
-        for (n, _) in env.vars.iter() {
-            if real.contains(n) && !out.iter().any(|(x, _)| x == n) {
-                out.push((n.clone(), env.get(n).unwrap().clone()));
+        for (n, v) in env.vars.iter() {
+            if v.alias.is_none() && real.contains(&v.coq) && !out.iter().any(|(_, x)| x.coq == v.coq) {
+                out.push((n.clone(), v.clone()));
             }
         }
         out
@@ -286,7 +291,7 @@ impl<'a> Tr<'a> {
                     },
                 };
                 // the receiver of the call being built is a place that is read by the call itself
-                let is_recv = i == 0 && matches!(e, Expr::MethodCall(_));
+                let is_recv = i == 0 && matches!(e, Expr::MethodCall(_)) && self.recv_stays_place(e, env);
                 if !trivial && !is_recv {
                     let v = self.pure(c, env, None)?;
                     let (env2, rn, cn) = self.bind_tmp(env, &v);
@@ -306,6 +311,28 @@ impl<'a> Tr<'a> {
         k(self, v)
     }
 
+    /// the receiver of this method call must stay a place (a `&mut self` callee or a built-in mutating method); every other
+    /// receiver is a value that Rust evaluates BEFORE the arguments
+    fn recv_stays_place(&mut self, e: &Expr, env: &Env) -> bool {
+        if let Expr::MethodCall(m) = e {
+            let n = m.method.to_string();
+            if n == "get_mut" {
+                return true;
+            }
+            if (n == "next" || n == "last") && m.args.is_empty() {
+                if let Ok(r) = self.pure(&m.receiver, env, None) {
+                    if matches!(r.ty, Ty::Range(_)) {
+                        return true;
+                    }
+                }
+            }
+            if let Ok(Some((f, _))) = self.resolve_effectful(e, env) {
+                return f.self_kind == SelfKind::Mut;
+            }
+        }
+        false
+    }
+
     fn resolve_effectful(&mut self, e: &Expr, env: &Env) -> R<Option<(FnInfo, Option<Val>)>> {
         match e {
             Expr::MethodCall(m) => {
@@ -317,6 +344,7 @@ impl<'a> Tr<'a> {
                     let name = m.method.to_string();
                     let fs = self.find_fns(Some(n), &name);
                     if fs.len() == 1 {
+                        self.check_not_shadowed(&fs[0], e)?;
                         return Ok(Some((fs[0].clone(), Some(recv))));
                     }
                 }
@@ -332,7 +360,8 @@ impl<'a> Tr<'a> {
                     if env.get(&segs[0]).is_some() {
                         return Ok(None);
                     }
-                    let fs = self.find_fns(None, &segs[0]);
+                    let local_def = self.t.file_defs.get(&self.cur_file).map(|d| d.fns.contains(&segs[0])).unwrap_or(false);
+                    let fs: Vec<FnInfo> = self.find_fns(None, &segs[0]).into_iter().filter(|f| !local_def || f.file == self.cur_file).collect();
                     return Ok(if fs.len() == 1 { Some((fs[0].clone(), None)) } else { None });
                 }
                 if segs.len() == 2 || segs.len() == 3 {
@@ -509,6 +538,9 @@ impl<'a> Tr<'a> {
 
     /// `loop { body }` / `while cond { body }`: a local fix over fuel; the variables assigned in the body are its arguments
     pub fn loop_k(&mut self, cond: Option<&Expr>, body: &Block, env: &Env, at: &Expr, k: K) -> R<String> {
+        if !self.loops.is_empty() {
+            return Err(unsupported(at, "a loop nested inside another loop (or inside an unrolled `for`)"));
+        }
         if !self.fuel {
             self.needs_fuel = true;
             return Err(unsupported(at, "loop (retry with fuel)"));
@@ -553,7 +585,12 @@ impl<'a> Tr<'a> {
             let c2 = cont.clone();
             let body_s = self.stmts_k(&body.stmts, env, None, &|_tr, _v| Ok(c2.clone()))?;
             let need_after = cond.is_some() || body_s.contains(&brk);
-            let after = if need_after { k(self, unit())? } else { String::new() };
+            let frame = self.loops.pop();
+            let after = if need_after { k(self, unit()) } else { Ok(String::new()) };
+            if let Some(f) = frame {
+                self.loops.push(f);
+            }
+            let after = after?;
             let inner = match cond {
                 Some(c) => {
                     let cv = self.pure(c, env, Some(&Ty::Bool))?;
@@ -661,7 +698,12 @@ impl<'a> Tr<'a> {
                     ty = join(&ty, &v.ty).map_err(|m| unsupported(init, &m))?;
                     aarms.push((p.clone(), path));
                 }
-                env2.push(&name, Var { coq: format!("<alias {}>", name), ty, alias: Some(Alias { scrut: scrut.clone(), arms: aarms, root: root.unwrap() }) });
+                let rname = root.unwrap();
+                let rv = env.get(&rname).unwrap().clone();
+                if !rv.mutable {
+                    return Err(unsupported(init, &format!("`&mut` of `{}`, which is not declared `mut` (a reference binding)", rname)));
+                }
+                env2.push(&name, Var { coq: format!("<alias {}>", name), ty, alias: Some(Alias { scrut: scrut.clone(), arms: aarms, root: rname, root_coq: rv.coq.clone(), root_ty: rv.ty.clone() }), mutable: true });
             } else if none_ref {
                 let mut ty = Ty::Infer;
                 let mut s = format!("(match {} with", scrut);
